@@ -151,10 +151,16 @@ def gen_spec(rng, cfgi, idx):
     # split into one or two top-level directories
     dirs = [segs]
     order = [0]
-    if len(segs) >= 2 and not cont and rng.random() < 0.3:
-        cut = rng.randrange(1, len(segs))
-        dirs = [segs[:cut], segs[cut:]]
-        order = rng.choice([[0, 1], [1, 0]])
+    if len(segs) >= 2 and not cont and rng.random() < 0.35:
+        if len(segs) >= 3 and rng.random() < 0.5:
+            # a later-listed directory that both starts earlier and ends later than the first
+            # (a "surrounding" session pair, C11): middle sessions in dir 0, outer ones in dir 1
+            dirs = [segs[1:-1], [segs[0], segs[-1]]]
+            order = rng.choice([[0, 1], [0, 1], [1, 0]])
+        else:
+            cut = rng.randrange(1, len(segs))
+            dirs = [segs[:cut], segs[cut:]]
+            order = rng.choice([[0, 1], [1, 0]])
     return {"n": n, "d": d, "fc": fc, "sc": sc, "k0": k0, "dtype": dtype, "cplx": cplx, "nsub": nsub,
             "cont": cont, "dirs": dirs, "order": order, "name": "cfg%d-%d" % (cfgi, idx)}
 
@@ -278,7 +284,7 @@ def build_queries(spec, dirs, rng, tier):
     # outside the data, and everything
     pairs += [(max(lo - 50, 0), max(lo - 2, 0)), (hi + 2, hi + 40), (max(lo - 30, 0), hi + 30), (lo, hi),
               (max(lo - 1000, 0), max(lo - 990, 0))]
-    q = [(4,), (7,)]
+    q = [(4,), (7,), (9,)]
     for s, e in pairs:
         q.append((1, s, e, -1))
         q.append((2, s, e))
@@ -573,7 +579,7 @@ def check_channel(res, spec, variants):
         res.disagree("listing (ilsdrf) is not the time-ordered set of data files", spec, None, None)
     queries, kinds, splits = build_queries(spec, dirs, res.rng, res.tier)
     impl = Impl(tops, seqmap)
-    impl_ans = [impl.answer(q) if q[0] not in (7, 8) else None for q in queries]
+    impl_ans = [impl.answer(q) if q[0] not in (7, 8, 9) else None for q in queries]
     bad = {}
     model_ans = {}
     cases = [encode_case(lk, sq, spec, dirs, queries) for lk, sq in variants]
@@ -588,6 +594,15 @@ def check_channel(res, spec, variants):
         if q[0] == 7 and len(dirs) == 1 and m != [1]:
             res.disagree("FilesInv (hypothesis of the C08 theorems) does not hold on writer-produced files",
                          {"spec": spec}, m, None)
+        if q[0] == 9:
+            # side condition of the multi-directory theorems: no file period in two directories
+            mss = [f["ms"] for files in dirs for f in files]
+            want = [1 if len(set(mss)) == len(mss) else 0]
+            res.count("dirs_ok_%d" % want[0])
+            if m != want:
+                res.disagree("dirs_ok_b (hypothesis of the C08_multi theorems) differs from 'every directory "
+                             "FilesInv and no file period twice' on writer-produced directories",
+                             {"spec": spec}, m, want)
         if q[0] == 8:
             rd = ex[queries.index((1, q[1], q[2], -1))] if (1, q[1], q[2], -1) in queries else None
             res.count("spec_vs_model")
@@ -600,7 +615,7 @@ def check_channel(res, spec, variants):
         for k in q[1:3]:
             for dk in (-1, 0, 1):
                 edge |= kinds.get(k + dk, set())
-        res.case((spec["name"], spec["n"], spec["d"], spec["fc"], spec["k0"], q), nontrivial=bool(edge) or q[0] in (4, 7))
+        res.case((spec["name"], spec["n"], spec["d"], spec["fc"], spec["k0"], q), nontrivial=bool(edge) or q[0] in (4, 7, 9))
         res.count("query_%d" % q[0])
     res.count("channels")
     res.count("channels_continuous" if spec["cont"] else "channels_gapped")
